@@ -347,8 +347,76 @@ def check_zone(ctx, what, z, spec, instants, expect, tag):
                 return False
     return bad == 0
 
+FRESH_CHILD = """
+import datetime, warnings
+warnings.simplefilter("ignore")
+from dateutil import tz
+try:
+    z = %s
+    for s in %r:
+        u = datetime.datetime(1970, 1, 1) + datetime.timedelta(seconds=s)
+        b = u.replace(tzinfo=tz.UTC).astimezone(z)
+        print(b.replace(tzinfo=None).isoformat(), b.fold, b.utcoffset(), b.tzname(), b.dst())
+except Exception as ex:
+    print("EXC", type(ex).__name__)
+"""
+
+def oracle_fresh(ctx):
+    """the first use in a NEW interpreter (lazy imports and module caches empty; for tzlocal: the TZ of the environment
+    the process was started in, no tzset) answers like this long-running process, whose answers the main oracle
+    compares with POSIX"""
+    import datetime, os, time
+    from dateutil import tz
+    from vlib import fresh_interpreters
+    rng = ctx.subrng("fresh")
+    jobs = []
+    epoch = datetime.datetime(1970, 1, 1)
+    for k in range(ctx.budget(6, 60)):
+        spec = gen_spec(rng)
+        pts = [int((u - epoch).total_seconds()) for u, near in probe_instants(spec, (2020,), 0) if near][:40]
+        kind = ("tzstr", "tzstr_posix", "tzlocal")[k % 3]
+        if kind == "tzlocal":
+            jobs.append((kind, posix_canon(spec), "tz.tzlocal()", pts))
+        else:
+            jobs.append((kind, spec["s"], "tz.tzstr(%r%s)" % (spec["s"], ", posix_offset=True" if kind == "tzstr_posix" else ""), pts))
+    # children are grouped by environment: tzlocal children get TZ=<spec>
+    res = [None] * len(jobs)
+    plain = [i for i, j in enumerate(jobs) if j[0] != "tzlocal"]
+    for i, r in zip(plain, fresh_interpreters([FRESH_CHILD % (jobs[i][2], jobs[i][3]) for i in plain])):
+        res[i] = r
+    for i, j in enumerate(jobs):
+        if j[0] == "tzlocal":
+            res[i] = fresh_interpreters([FRESH_CHILD % (j[2], j[3])], env={"TZ": j[1]})[0]
+    for (kind, s, ctor, pts), (rc, out, err) in zip(jobs, res):
+        ctx.case(("fresh", kind, s)); ctx.count("fresh_interpreter_" + kind)
+        here = []
+        old = os.environ.get("TZ")
+        try:
+            with warnings.catch_warnings():
+                warnings.simplefilter("ignore")
+                if kind == "tzlocal":
+                    os.environ["TZ"] = s; time.tzset()
+                z = eval(ctor, {"tz": tz})
+                for p in pts:
+                    b = (epoch + datetime.timedelta(seconds=p)).replace(tzinfo=tz.UTC).astimezone(z)
+                    here.append("%s %s %s %s %s" % (b.replace(tzinfo=None).isoformat(), b.fold, b.utcoffset(), b.tzname(), b.dst()))
+        except Exception as ex:
+            here.append("EXC %s" % type(ex).__name__)
+        finally:
+            if kind == "tzlocal":
+                if old is None: os.environ.pop("TZ", None)
+                else: os.environ["TZ"] = old
+                time.tzset()
+        there = out.strip().splitlines() if rc == 0 else ["child failed rc=%s: %s" % (rc, err.strip().splitlines()[-1:] or "")]
+        if here != there:
+            i = next((n for n, (x, y) in enumerate(zip(here, there)) if x != y), min(len(here), len(there)))
+            ctx.violation("%s as the first dateutil call of a new interpreter answers differently: %s, this process: %s"
+                          % (ctor, there[i] if i < len(there) else "<nothing>", here[i] if i < len(here) else "<nothing>"),
+                          {"kind": "fresh-interpreter", "zone": kind, "s": s}, None)
+
 def oracle(ctx):
     from dateutil import tz
+    oracle_fresh(ctx)
     rng = ctx.subrng("oracle")
     nspecs = ctx.budget(90, 3000)
     years = (2019, 2020, 2021)
